@@ -158,11 +158,14 @@ LimitOK(q2, m) == m \notin q2.live /\ (q2.cfg.dlq => InSeq(m, q2.dlq))
 
 Rej(q, m, requeue) ==
     IF m \notin q.live THEN q
-    ELSE LET q1 == [q EXCEPT !.infl = @ \ {m}, !.pend = Unpend(@, m)]
+    ELSE LET q1 == [q EXCEPT !.infl = @ \ {m}]
              under == IF "requeue_at_limit" \in Dev THEN q.cnt[m] <= q.cfg.maxr ELSE q.cnt[m] < q.cfg.maxr
              q2 == IF requeue /\ under
-                   THEN IF "reject_forgets_requeue" \in Dev THEN q1 ELSE [q1 EXCEPT !.pend = Append(@, m)]
-                   ELSE DeadLetter(q1, m)
+                   THEN IF "reject_forgets_requeue" \in Dev THEN q1
+                        ELSE IF InSeq(m, q1.pend) /\ "settle_leaves_pending_id" \notin Dev
+                        THEN q1      \* already queued (scheduled redelivery / earlier requeue): stays where it is
+                        ELSE [q1 EXCEPT !.pend = Append(@, m)]
+                   ELSE DeadLetter([q1 EXCEPT !.pend = Unpend(@, m)], m)
          IN [q2 EXCEPT !.okLimit = @ /\ ((requeue /\ q.cnt[m] >= q.cfg.maxr) => LimitOK(q2, m))]
 
 \* schedule_redelivery(m); TimeoutArms tells whether an event is returned
